@@ -52,14 +52,64 @@ fn map_err(e: peppi::io::Error) -> (String, Option<std::io::ErrorKind>) {
     (e.to_string(), kind)
 }
 
+// The reader's `Opts.debug` option dumps every event's payload to files under a directory.
+// It is the one place where the library touches the real file system, so it is not simulated:
+// the dump goes to a per-process scratch directory (tmpfs when there is one) that is probed once,
+// removed after every read, and never looked at. Only small replays get it (one file per event).
+static DEBUG_DUMP: std::sync::atomic::AtomicBool = std::sync::atomic::AtomicBool::new(false);
+static DEBUG_DUMPS: std::sync::atomic::AtomicU64 = std::sync::atomic::AtomicU64::new(0);
+const DEBUG_DUMP_MAX_LEN: usize = 48 << 10;
+
+pub fn set_debug_dump(on: bool) {
+    DEBUG_DUMP.store(on, std::sync::atomic::Ordering::Relaxed);
+    DEBUG_DUMPS.store(0, std::sync::atomic::Ordering::Relaxed);
+}
+
+pub fn take_debug_dumps() -> u64 {
+    DEBUG_DUMPS.swap(0, std::sync::atomic::Ordering::Relaxed)
+}
+
+/// The scratch directory, or None when it cannot be written (then the option is never set).
+fn debug_dir() -> Option<&'static std::path::PathBuf> {
+    static DIR: std::sync::OnceLock<Option<std::path::PathBuf>> = std::sync::OnceLock::new();
+    DIR.get_or_init(|| {
+        let base = if std::path::Path::new("/dev/shm").is_dir() { std::path::PathBuf::from("/dev/shm") } else { std::env::temp_dir() };
+        let dir = base.join(format!("simctl-dbg-{}", std::process::id()));
+        let probe = dir.join("54");
+        let ok = std::fs::create_dir_all(&probe).is_ok() && std::fs::write(probe.join("0"), [0u8; 64]).is_ok();
+        let _ = std::fs::remove_dir_all(&dir);
+        if ok { Some(dir) } else { None }
+    })
+    .as_ref()
+}
+
+fn debug_cleanup(o: &peppi::io::slippi::de::Opts) {
+    if let Some(d) = &o.debug {
+        let _ = std::fs::remove_dir_all(&d.dir);
+    }
+}
+
 pub fn slp_opts(o: OptsSpec) -> peppi::io::slippi::de::Opts {
-    peppi::io::slippi::de::Opts { skip_frames: o.skip_frames, compute_hash: o.compute_hash, debug: None }
+    slp_opts_for(o, usize::MAX)
+}
+
+pub fn slp_opts_for(o: OptsSpec, len: usize) -> peppi::io::slippi::de::Opts {
+    let debug = if len <= DEBUG_DUMP_MAX_LEN && DEBUG_DUMP.load(std::sync::atomic::Ordering::Relaxed) {
+        debug_dir().map(|d| {
+            DEBUG_DUMPS.fetch_add(1, std::sync::atomic::Ordering::Relaxed);
+            peppi::io::slippi::de::Debug { dir: d.clone() }
+        })
+    } else {
+        None
+    };
+    peppi::io::slippi::de::Opts { skip_frames: o.skip_frames, compute_hash: o.compute_hash, debug }
 }
 
 pub fn read_slp(data: &[u8], ss: &StreamSpec, edges: &[usize], opts: OptsSpec) -> ReadOut {
     let mut stream = SimStream::new(data, ss, edges);
-    let o = slp_opts(opts);
+    let o = slp_opts_for(opts, data.len());
     let r = guarded(|| peppi::io::slippi::read(&mut stream, Some(&o)));
+    debug_cleanup(&o);
     let res = match r {
         Ok(Ok(g)) => Res::Ok(g),
         Ok(Err(e)) => {
